@@ -211,4 +211,32 @@ theorem C15_capacity (G : Nat → Nat) (c : Cuckoo) (ops : List (Op × List Nat)
     · exact ⟨j, by omega, by rw [hjc, hc]⟩
     · exact ⟨j + 1, by omega, by rw [hjc, hc, Nat.pow_succ, Nat.mul_assoc, Nat.mul_comm (c.rate ^ j)]⟩
 
+/-! ### tests and non-vacuity (concrete instances, evaluated by `decide`) -/
+
+/-- a simple concrete second-index hash -/
+def G0 : Nat → Nat := fun fp => fp / 2
+/-- plain filter: 2 buckets of 1 slot, 2 swaps, no auto-expansion -/
+def c0 : Cuckoo := Cuckoo.new false 2 1 2 2 false 8
+/-- after `add 2; add 4`: the second add finds both candidate buckets (0 and 0) full and goes through
+    the kick loop: 2 is evicted from bucket 0 to its other bucket 1 -/
+def c2 : Cuckoo := run G0 c0 [(.add 2, []), (.add 4, [0, 0])]
+
+example : Inv G0 c0 := C15_init G0 false 2 1 2 2 false 8 (by decide) (by decide) (by decide)
+example : c2.buckets = [[(4, 1)], [(2, 1)]] := by decide
+example : Inv G0 c2 := C15_run G0 c0 _ (C15_init G0 false 2 1 2 2 false 8 (by decide) (by decide) (by decide))
+/-- the invariant is decidable on concrete tables and is not trivially true: -/
+example : Inv G0 c2 := by unfold Inv; decide
+example : ¬ Inv G0 { c2 with buckets := [[(4, 1)], [(4, 1)]] } := by unfold Inv; decide
+example : ¬ Inv G0 { c2 with buckets := [[(2, 1)], [(4, 1)]] } := by unfold Inv; decide
+example : ¬ Inv G0 { c2 with buckets := [[(4, 1), (6, 1)], [(2, 1)]] } := by unfold Inv; decide
+/-- a third add (fingerprint 6, buckets 0 and 1) runs out of swaps: error, state unchanged -/
+example : (c2.add G0 6 [0, 0, 0]).2.1 = some .cuckooFull ∧ (c2.add G0 6 [0, 0, 0]).1 = c2 := by decide
+/-- counting filter with auto-expansion: the same failing add expands the table to capacity 4;
+    the bin of fingerprint 4 keeps its count 2 -/
+example : (run G0 (Cuckoo.new true 2 1 2 2 true 8)
+    [(.add 2, []), (.add 4, [0, 0]), (.add 4, []), (.add 6, [0, 0, 0])]).buckets
+      = [[(4, 2)], [(2, 1)], [(6, 1)], []] := by decide
+example : (run G0 (Cuckoo.new true 2 1 2 2 true 8)
+    [(.add 2, []), (.add 4, [0, 0]), (.add 4, []), (.add 6, [0, 0, 0])]).cap = 2 * 2 ^ 1 := by decide
+
 end PyProb.C15
